@@ -348,6 +348,9 @@ func judgeYAML(c yamlCase, note func(r yamlRef, w want, known string)) string {
 			known = "C17/tab-column"
 		}
 	}
+	if known == "" && w.Pos >= 0 {
+		known = knownIllFormed(w)
+	}
 	if note != nil {
 		note(r, w, known)
 	}
